@@ -116,11 +116,40 @@ func lintObj(o *Obj, reg lint.Registry) (rs *zlint.ResultSet, panicMsg string) {
 	}
 	select {
 	case a := <-ch:
-		return a.rs, a.p
+		return handOver(a.rs), a.p
 	case <-time.After(to):
 		atomic.AddInt32(&hangCount, 1)
 		return nil, hangMarker + to.String()
 	}
+}
+
+// handOver gives the harness a private copy of a result set and then scribbles over the original, the way a caller may who
+// post-processes what it was handed (waivers, severity re-mapping): a result set belongs to the caller, so nothing the
+// library keeps may alias it. A lint (or the framework) that hands out a long-lived result object shows the scribble —
+// a finding status and a marker text — in a later run, where every check that compares runs or judges statuses sees it.
+func handOver(rs *zlint.ResultSet) *zlint.ResultSet {
+	if rs == nil {
+		return nil
+	}
+	c := *rs
+	c.Results = make(map[string]*lint.LintResult, len(rs.Results))
+	i := 0
+	for name, r := range rs.Results {
+		if r == nil {
+			c.Results[name] = nil
+			continue
+		}
+		cp := *r
+		c.Results[name] = &cp
+		// the scribble: a status that is a finding in every window and scope, a text no lint writes
+		r.Status = []lint.LintStatus{lint.Error, lint.Pass, lint.Warn}[i%3]
+		r.Details = "scribbled over by the caller of an earlier run"
+		r.LintMetadata = lint.LintMetadata{Name: "scribbled"}
+		i++
+	}
+	rs.Results = nil
+	rs.ErrorsPresent, rs.WarningsPresent, rs.NoticesPresent, rs.FatalsPresent = true, true, true, true
+	return &c
 }
 
 // lintEntry: the public entry points other than Lint*Ex with an explicit registry
